@@ -12,7 +12,7 @@ import (
 // source but missing here is a specification gap (exit 2), never a violation.
 type family struct {
 	Pkg, Name string
-	Str       func(v uint64) string  // the real String method
+	Str       func(v uint64) string // the real String method
 	From      func(s string) uint64 // the real asm/enum.XxxFromString (may panic)
 }
 
